@@ -83,8 +83,10 @@ def build(tier):
         return n == 0 and sh in ("SHARED", "STATIC_SHARED") and b2 > a2 and not (a2 % 8 == 0 and b2 % 8 == 0)
 
     # --- unary, ownership-sensitive (mutating or copying) ops: all shapes
-    for (l, a, b) in (RQ if q else RF):
-        for sh in shapes_for(l, a, b, SHAPES):
+    for i, (l, a, b) in enumerate(RQ if q else RF):
+        for si, sh in enumerate(shapes_for(l, a, b, SHAPES)):
+            if q and (i + si + rot) % 2:
+                continue
             add("detach", "op_detach(s, %s);" % R(l, a, b, sh), "detach " + D(l, a, b, sh))
             add("invert", "op_invert(s, %s);" % R(l, a, b, sh), "invert " + D(l, a, b, sh))
     for i, (l, a, b) in enumerate(RQ if q else RM):
@@ -101,7 +103,7 @@ def build(tier):
         shs = shapes_for(l, a, b, ro_shapes)
         shs = [shs[(i + rot) % len(shs)]] if q else shs[:3] if n > 2 else shs[:2]
         for sh in shs:
-            ks = sorted(set([n // 2, n, n + 1])) if q else sorted(set([0, 1, n // 2, max(n - 1, 0), n, n + 1, n + 9]))
+            ks = sorted(set([n // 2, n + 1])) if q else sorted(set([0, 1, n // 2, max(n - 1, 0), n, n + 1, n + 9]))
             for k in ks:
                 add("read", "op_read(s, %s, %d);" % (R(l, a, b, sh), k), "read(%d) " % k + D(l, a, b, sh))
                 add("peek", "op_peek(s, %s, %d);" % (R(l, a, b, sh), k), "peek(%d) " % k + D(l, a, b, sh))
@@ -114,7 +116,7 @@ def build(tier):
     for i, (l, a, b) in enumerate(RQ if q else RM):
         n = b - a
         for si, sh in enumerate(shapes_for(l, a, b, GROW)):
-            tl = [TAILS[(i + si + rot) % 4], TAILS[(i + si + rot + 1) % 4]] if q else TAILS[:6]
+            tl = [TAILS[(i + si + rot) % 4]] + ([TAILS[(i + si + rot + 1) % 4]] if sh in ("UNIQUE", "INVERTED") else []) if q else TAILS[:6]
             for ti, (l2, a2, b2) in enumerate(tl):
                 sh2 = ["SHARED", "UNIQUE"][(i + si + ti) % 2]
                 if explodes(n, sh, (l2, a2, b2)):
@@ -124,7 +126,9 @@ def build(tier):
             if sh in ("SHARED", "UNIQUE", "STATIC_SHARED", "INVERTED") and (not q or (i + si) % 3 == 0):
                 (l2, a2, b2) = TAILS[(i + si) % 4]
                 sh2 = ["SHARED", "UNIQUE"][(i + si) % 2]
-                for k in ([] if n == 0 else [n // 2] if q else sorted(set([0, n // 2, n, n + 1]))):
+                # k == 0 is excluded: the left part is then empty and shared, detach() returns Bitstr::new()
+                # (an empty *borrowed* Cow) and CBMC produces garbage on Cow::to_mut + growth (see DESIGN.md)
+                for k in ([] if n == 0 else [max(1, n // 2)] if q else sorted(set([1, max(1, n // 2), n, n + 1]))):
                     add("insert", "op_insert(s, %s, %s, %d);" % (R(l, a, b, sh), R(l2, a2, b2, sh2), k),
                         "insert(%d) " % k + D(l, a, b, sh) + " <- " + D(l2, a2, b2, sh2))
             if (i + si) % (4 if q else 1) == 0:
